@@ -48,6 +48,9 @@ func c15Instants(c *Ctx) {
 	addF := func(t time.Time, class string) {
 		text := saml.RelaxedTime(t).String()
 		mb, _ := saml.RelaxedTime(t).MarshalText()
+		if m := timeWatch.next(mb); m != "" {
+			marshalAliased = m
+		}
 		if string(mb) != text {
 			text = string(mb)
 		}
@@ -57,12 +60,12 @@ func c15Instants(c *Ctx) {
 		if rt != nil {
 			rts = rt.UTC().Format(time.RFC3339Nano)
 		}
-		c.Add(gf, &Case{
+		c.Add(gf, flagHistory(&Case{
 			Key:   map[string]string{"op": "instant_roundtrip", "class": class},
 			Input: map[string]any{"t": t.UTC().Format(time.RFC3339Nano)},
 			Obs:   map[string]any{"text": text, "roundtrip": rts},
 			Term:  fmt.Sprintf("{| fc_t := %s; fc_text := %s; fc_rt := %s |}", instantZ(t), emit.Str(text), optInstant(rt)),
-		})
+		}))
 	}
 	addP := func(s string, class string) {
 		res := relaxedParse(s)
